@@ -141,8 +141,51 @@ def key_unit(unit):
     if not named:
         # different functions with derived names never share a key base
         fns = same_named_functions()
+        extras = []
+
+        def extra_obj(cls, **kw):
+            d = run.fresh_dir('mx')
+            obj = cls(d, **kw)
+            extras.append((obj, d))
+            return obj
+
+        def plain(x):
+            return x
+
+        def other(x):
+            return -x
+
+        fns += [plain, other]
         wraps = [cache.memoize(typed=typed, ignore=set(ignore))(g)
                  for g in fns]
+        # ... also when ONE decorator object is applied to all of them
+        for make in (lambda: cache.memoize(typed=typed, ignore=set(ignore)),
+                     lambda: dc.memoize_stampede(cache, 10, typed=typed,
+                                                 ignore=set(ignore)),
+                     lambda: extra_obj(dc.Index).memoize(
+                         typed=typed, ignore=set(ignore)),
+                     lambda: extra_obj(dc.FanoutCache, shards=2).memoize(
+                         typed=typed, ignore=set(ignore))):
+            deco = make()
+            wraps_shared = [deco(g) for g in fns]
+            for (i, w1), (j, w2) in itertools.combinations(
+                    enumerate(wraps_shared), 2):
+                part['transitions'] += 1
+                if w1.__cache_key__(1) == w2.__cache_key__(1):
+                    part['violations'].append({
+                        'signature': {'clause': 'shared-entry',
+                                      'reason': 'one-decorator-object'},
+                        'message': 'shared-entry: one memoize() decorator '
+                                   'applied to %s and %s gives both the key '
+                                   '%r' % (fns[i].__qualname__,
+                                           fns[j].__qualname__,
+                                           w1.__cache_key__(1)),
+                        'replay': {'engine': 'GRID', 'module': 'props.c16',
+                                   'unit': list(unit)}})
+                    break
+        for obj, d in extras:
+            (obj.cache if isinstance(obj, dc.Index) else obj).close()
+            run.drop(d)
         for (i, w1), (j, w2) in itertools.combinations(enumerate(wraps), 2):
             for args, kw in (((), ()), ((1,), ()), ((), (('a', 1),))):
                 part['transitions'] += 1
